@@ -360,23 +360,100 @@ func (m *VerifUpvalMachine) OpSetGlobal(cur, lbase, a int, name string) string {
 	return m.exec(cur, lbase, p, opCreateABx(OP_SETGLOBAL, a, 0))
 }
 
-// VerifFrame describes one live call frame (innermost first in VerifFrames).
+// ---- C17: local-variable scopes, call-frame chain, level arithmetic ----
+
+// VerifScopeSim drives a fresh funcContext with a block-structured event list through the REAL
+// RegisterLocalVar / EnterBlock / LeaveBlock (EndScope) / codeStore.Add and finishes the way
+// compileFunctionExpr does (RETURN, EndScope).  Events: "d<name>" declare a local, "b" enter a block,
+// "e" leave the block, "u" mark the current block as referencing an upvalue (LeaveBlock then emits CLOSE),
+// "i" emit one instruction.  Returns a copy of Proto.DbgLocals, the register RegisterLocalVar returned for
+// each declaration, the final pc, and the text of a Go panic / compile error ("" if none).
+func VerifScopeSim(events []string) (locals []DbgLocalInfo, regs []int, npc int, perr string) {
+	fc := newFuncContext("verif", nil)
+	perr = verifGuard(func() {
+		for _, ev := range events {
+			switch {
+			case ev == "b":
+				fc.EnterBlock(labelNoJump, nil)
+			case ev == "e":
+				fc.LeaveBlock()
+			case ev == "u":
+				fc.Block.RefUpvalue = true
+			case ev == "i":
+				fc.Code.AddABC(OP_NOP, 0, 0, 0, 1)
+			case len(ev) > 0 && ev[0] == 'd':
+				regs = append(regs, fc.RegisterLocalVar(ev[1:]))
+			}
+		}
+		fc.Code.AddABC(OP_RETURN, 0, 1, 0, 1)
+		fc.EndScope()
+	})
+	for _, l := range fc.Proto.DbgLocals {
+		locals = append(locals, *l)
+	}
+	npc = fc.Code.LastPC() + 1
+	return
+}
+
+// VerifFrame is a read-only copy of one call frame.
 type VerifFrame struct {
+	Idx       int
 	IsG       bool
+	TailCall  int
+	Pc        int
 	Base      int
 	LocalBase int
+	Line      int // DbgSourcePositions[Pc-1] of a Lua frame with Pc > 0, else -1
 	NumRegs   int // Proto.NumUsedRegisters of a Lua function, 0 for a host function
 }
 
-// VerifFrames lists the live call frames of this thread following currentFrame.Parent.
-func (ls *LState) VerifFrames() []VerifFrame {
-	var fs []VerifFrame
-	for cf := ls.currentFrame; cf != nil && len(fs) < 1<<16; cf = cf.Parent {
-		f := VerifFrame{IsG: cf.Fn.IsG, Base: cf.Base, LocalBase: cf.LocalBase}
-		if !cf.Fn.IsG {
-			f.NumRegs = int(cf.Fn.Proto.NumUsedRegisters)
-		}
-		fs = append(fs, f)
+func verifFrameOf(cf *callFrame) VerifFrame {
+	f := VerifFrame{Idx: cf.Idx, IsG: cf.Fn.IsG, TailCall: cf.TailCall, Pc: cf.Pc, Base: cf.Base, LocalBase: cf.LocalBase, Line: -1}
+	if !cf.Fn.IsG && cf.Pc > 0 && cf.Pc-1 < len(cf.Fn.Proto.DbgSourcePositions) {
+		f.Line = cf.Fn.Proto.DbgSourcePositions[cf.Pc-1]
 	}
-	return fs
+	if !cf.Fn.IsG {
+		f.NumRegs = int(cf.Fn.Proto.NumUsedRegisters)
+	}
+	return f
 }
+
+// VerifFrames lists the Parent chain starting at the current frame (level 0 first).
+func (ls *LState) VerifFrames() []VerifFrame {
+	var out []VerifFrame
+	for cf := ls.currentFrame; cf != nil; cf = cf.Parent {
+		out = append(out, verifFrameOf(cf))
+	}
+	return out
+}
+
+// VerifStackBases returns Base of every frame on the call-frame stack, bottom first (index = frame.Idx).
+func (ls *LState) VerifStackBases() []int {
+	out := make([]int, ls.stack.Sp())
+	for i := range out {
+		out[i] = ls.stack.At(i).Base
+	}
+	return out
+}
+
+// VerifFrame returns the frame a Debug record refers to (ok=false when it has none).
+func (d *Debug) VerifFrame() (VerifFrame, bool) {
+	if d == nil || d.frame == nil {
+		return VerifFrame{}, false
+	}
+	return verifFrameOf(d.frame), true
+}
+
+// VerifFrameFn returns the function running in the frame of a Debug record.
+func (d *Debug) VerifFrameFn() *LFunction {
+	if d == nil || d.frame == nil {
+		return nil
+	}
+	return d.frame.Fn
+}
+
+// VerifWhere exposes where(level, skipg).
+func (ls *LState) VerifWhere(level int, skipg bool) string { return ls.where(level, skipg) }
+
+// VerifFindLocal exposes findLocal on the frame of a Debug record.
+func (ls *LState) VerifFindLocal(d *Debug, no int) string { return ls.findLocal(d.frame, no) }
